@@ -32,7 +32,7 @@ if [ "$MODE" = "thorough" ]; then
     C01|C02|C03|C04|C05|C08|C09|C17)
       # secondary engine: libFuzzer targets (instrumented + AddressSanitizer). If they cannot be built the
       # check still runs its proptest parts and says so in the evidence.
-      (cd /verif/harness && cargo +nightly fuzz build >/verif/harness/target/build-fuzz.log 2>&1) || echo "note: fuzz targets not built (see /verif/harness/target/build-fuzz.log); libFuzzer part skipped"
+      (cd /verif/harness && RUSTFLAGS="--cfg specs_verif" cargo +nightly fuzz build >/verif/harness/target/build-fuzz.log 2>&1) || echo "note: fuzz targets not built (see /verif/harness/target/build-fuzz.log); libFuzzer part skipped"
       ;;
   esac
 fi
